@@ -189,6 +189,9 @@ pub enum WorkShape {
     /// of `skel` pairwise-different items, with a word over the two free symbols {0,1}
     /// spliced in at `pos` (1 = middle, 2 = end, 3 = before the last skeleton item) on each side (same length on both sides)
     Repeats { alg: Algorithm, skel: usize, pos: u8, old_word: Vec<u8>, new_word: Vec<u8> },
+    /// `skel` pairwise-different items, of which `k` evenly scattered ones are replaced by
+    /// fresh different items on the new side (D = 2k grows with the number of edits)
+    Scattered { alg: Algorithm, skel: usize, k: usize },
 }
 pub struct C19;
 
@@ -266,6 +269,13 @@ impl Prop for C19 {
                 for (a, b) in &combos {
                     v.push(WorkShape::Skeleton { alg, skel, old_extra: a.clone(), new_extra: b.clone() });
                 }
+            }
+            let scat: &[(usize, usize)] = match tier {
+                Tier::Quick => &[(200, 10), (200, 30)],
+                Tier::Thorough => &[(200, 10), (200, 30), (400, 40), (800, 40)],
+            };
+            for &(skel, k) in scat {
+                v.push(WorkShape::Scattered { alg, skel, k });
             }
             // words over two free symbols, same length on both sides, differing in one or two places
             let wl = match tier {
@@ -346,6 +356,20 @@ impl Prop for C19 {
                 }
                 (*alg, o, n)
             }
+            WorkShape::Scattered { alg, skel, k } => {
+                let sk = Sym::fresh_vec(*skel);
+                let fresh = Sym::fresh_vec(*k);
+                let all: Vec<u32> = sk.iter().chain(fresh.iter()).map(|x| x.0).collect();
+                engine::assume(&F::Distinct(all.clone()));
+                for id in &all {
+                    engine::set_hash_class(*id, *id as u64);
+                }
+                let mut n = sk.clone();
+                for (j, f) in fresh.iter().enumerate() {
+                    n[(j * *skel) / *k + *skel / (2 * *k)] = *f;
+                }
+                (*alg, sk, n)
+            }
             WorkShape::Repeats { alg, skel, pos, old_word, new_word } => {
                 let sk = Sym::fresh_vec(*skel);
                 engine::assume(&F::Distinct(sk.iter().map(|x| x.0).collect()));
@@ -418,7 +442,7 @@ impl Prop for C19 {
         let c = konst(if alg == Algorithm::Myers { "c19_myers_C" } else { "c19_patience_C" });
         let bound = c * (n as u64 + m as u64 + 1) * (d as u64 + 1);
         engine::stat_max(
-            &format!("{}_{}_comparisons_x100_per_(N+M+1)(D+1)", alg_name(alg), match s { WorkShape::Small { .. } => "small", WorkShape::Skeleton { .. } => "skeleton", WorkShape::Repeats { .. } => "repeats" }),
+            &format!("{}_{}_comparisons_x100_per_(N+M+1)(D+1)", alg_name(alg), match s { WorkShape::Small { .. } => "small", WorkShape::Skeleton { .. } => "skeleton", WorkShape::Repeats { .. } => "repeats", WorkShape::Scattered { .. } => "scattered" }),
             cmps * 100 / ((n as u64 + m as u64 + 1) * (d as u64 + 1)),
         );
         if d >= 1 {
@@ -429,6 +453,9 @@ impl Prop for C19 {
         }
         if matches!(s, WorkShape::Repeats { .. }) {
             engine::witness("repeated_item_edit_paths");
+        }
+        if matches!(s, WorkShape::Scattered { .. }) {
+            engine::witness("scattered_edit_paths");
         }
         claim!(
             cmps <= bound,
@@ -443,12 +470,14 @@ impl Prop for C19 {
             WorkShape::Small { n, m, .. } => (n + m) as u64,
             WorkShape::Skeleton { skel, old_extra, new_extra, .. } => (*skel as u64 / 50) + (old_extra.len() + new_extra.len()) as u64,
             WorkShape::Repeats { skel, .. } => *skel as u64 / 50 + 2,
+            WorkShape::Scattered { skel, k, .. } => (*skel * *k) as u64 / 100,
         }
     }
     fn shape_json(&self, s: &WorkShape) -> Value {
         match s {
             WorkShape::Small { alg, n, m } => json!({"kind": "small", "alg": alg_name(*alg), "n": n, "m": m}),
             WorkShape::Skeleton { alg, skel, old_extra, new_extra } => json!({"kind": "skeleton", "alg": alg_name(*alg), "skel": skel, "old_extra": old_extra, "new_extra": new_extra}),
+            WorkShape::Scattered { alg, skel, k } => json!({"kind": "scattered", "alg": alg_name(*alg), "skel": skel, "k": k}),
             WorkShape::Repeats { alg, skel, pos, old_word, new_word } => json!({"kind": "repeats", "alg": alg_name(*alg), "skel": skel, "pos": pos, "old_word": old_word, "new_word": new_word}),
         }
     }
@@ -456,6 +485,8 @@ impl Prop for C19 {
         let alg = alg_from(v["alg"].as_str().unwrap());
         if v["kind"] == "small" {
             WorkShape::Small { alg, n: v["n"].as_u64().unwrap() as usize, m: v["m"].as_u64().unwrap() as usize }
+        } else if v["kind"] == "scattered" {
+            WorkShape::Scattered { alg, skel: v["skel"].as_u64().unwrap() as usize, k: v["k"].as_u64().unwrap() as usize }
         } else if v["kind"] == "repeats" {
             let g = |k: &str| v[k].as_array().unwrap().iter().map(|x| x.as_u64().unwrap() as u8).collect();
             WorkShape::Repeats { alg, skel: v["skel"].as_u64().unwrap() as usize, pos: v["pos"].as_u64().unwrap() as u8, old_word: g("old_word"), new_word: g("new_word") }
@@ -468,6 +499,7 @@ impl Prop for C19 {
         match s {
             WorkShape::Small { n, m, .. } => describe_inputs(*n, *m, PLAIN, ints),
             WorkShape::Skeleton { skel, .. } => json!({"skeleton_items": &ints[..(*skel).min(ints.len())].len(), "free_items": &ints[(*skel).min(ints.len())..]}),
+            WorkShape::Scattered { skel, k, .. } => json!({"skeleton_items": skel, "scattered_substitutions": k}),
             WorkShape::Repeats { skel, pos, old_word, new_word, .. } => json!({"skeleton_items": skel, "word_position": match *pos { 1 => "middle", 2 => "end", _ => "before the last skeleton item" }, "old_word": old_word, "new_word": new_word, "values_of_the_two_free_symbols": &ints[(*skel).min(ints.len())..]}),
         }
     }
@@ -481,10 +513,10 @@ impl Prop for C19 {
                 "similar::algorithms::patience::diff_deadline (+ unique, Patience hook)",
                 "similar::algorithms::utils::{common_prefix_len, common_suffix_len}",
             ],
-            bounds: format!("(a) every input with n,m in 0..={} (Patience 0..=5), D from a reference LCS (Myers) or the reported script (Patience); (c) repeated-item edits: a skeleton of 100 (thorough 50/100/200) pairwise-different items with a word of length 2..=3 (4), or of length 4..=5 (5..=6) in which every symbol is repeated on both sides, over two free symbols spliced into the middle, at the end, or before the last skeleton item, old and new words of the same length differing in one or two places; (b) skeleton family: {} shared pairwise-distinct items (one z3 distinct) on both sides plus up to {} free symbolic items at front/middle/end of either side, all values of the free items; comparisons counted at PartialEq/Ord of the element type; constants C={} (Myers), C={} (Patience) from constants.json", match tier { Tier::Quick => 5, Tier::Thorough => 6 }, match tier { Tier::Quick => "50/100/200", Tier::Thorough => "50/100/200/400/800" }, match tier { Tier::Quick => 2, Tier::Thorough => 3 }, konst("c19_myers_C"), konst("c19_patience_C")),
+            bounds: format!("(a) every input with n,m in 0..={} (Patience 0..=5), D from a reference LCS (Myers) or the reported script (Patience); (d) scattered edits: 200 (thorough up to 800) pairwise-different items with 10 / 30 (40) evenly scattered substitutions, so D = 2k grows; (c) repeated-item edits: a skeleton of 100 (thorough 50/100/200) pairwise-different items with a word of length 2..=3 (4), or of length 4..=5 (5..=6) in which every symbol is repeated on both sides, over two free symbols spliced into the middle, at the end, or before the last skeleton item, old and new words of the same length differing in one or two places; (b) skeleton family: {} shared pairwise-distinct items (one z3 distinct) on both sides plus up to {} free symbolic items at front/middle/end of either side, all values of the free items; comparisons counted at PartialEq/Ord of the element type; constants C={} (Myers), C={} (Patience) from constants.json", match tier { Tier::Quick => 5, Tier::Thorough => 6 }, match tier { Tier::Quick => "50/100/200", Tier::Thorough => "50/100/200/400/800" }, match tier { Tier::Quick => 2, Tier::Thorough => 3 }, konst("c19_myers_C"), konst("c19_patience_C")),
             outside: "periodic, small-alphabet, unrelated and block-move inputs of hundreds or thousands of items: the number of equality patterns explodes, a path-enumerating symbolic executor cannot cover them; (a) says nothing about growth and (b) is one family. Hash-map work inside Patience's unique() with a constant hash is quadratic by construction of the harness and is not counted (only element comparisons made by the algorithm's own code and by HashMap key equality are)".into(),
             assumptions: vec!["a comparison = one call of PartialEq::eq / Ord::cmp on the element type".into()],
-            required_witnesses: vec!["paths_with_edits", "skeleton_paths", "repeated_item_edit_paths"],
+            required_witnesses: vec!["paths_with_edits", "skeleton_paths", "repeated_item_edit_paths", "scattered_edit_paths"],
             rule: "one state = one explored path; the claim is a per-path inequality on the measured comparison count".into(),
         }
     }
@@ -522,6 +554,9 @@ impl Prop for C20 {
     }
     fn run(&self, s: &DetShape) -> String {
         reset_hooks();
+        // the symbolic items hash to a constant, also when a counterexample is replayed: an
+        // item type whose Hash is coarser than its Eq is lawful, and the ops must not depend on it
+        engine::keep_constant_hash_in_replay();
         let old = Sym::fresh_vec(s.n);
         let new = Sym::fresh_vec(s.m);
         let ops = capture_diff_slices(s.alg, &old, &new);
@@ -565,7 +600,7 @@ impl Prop for C20 {
         describe_inputs(s.n, s.m, PLAIN, ints)
     }
     fn recheck_every(&self, _tier: Tier) -> u64 {
-        1 // every leaf is also re-executed natively with value hashing
+        1 // every leaf is also re-executed natively (items keep their coarse hash; the i64 / String instantiations hash by value)
     }
     fn meta(&self, tier: Tier) -> Meta {
         Meta {
